@@ -129,12 +129,15 @@ def _phase1(matrix, basis, basis_set, m, n, eps, max_iter):
             for j in range(n_cols):
                 matrix[-1][j] -= matrix[i][j]
 
+    # Total infeasibility at the start: what is left of it at the end is cancellation noise relative to this size
+    start_infeasibility = -matrix[-1][-1]
+
     status, iters, matrix, basis, basis_set = _phase2(matrix, basis, basis_set, m, eps, max_iter)
 
     if status == Status.MAX_ITER:
         return Status.MAX_ITER, iters, matrix, basis, basis_set
 
-    if matrix[-1][-1] < -eps:
+    if matrix[-1][-1] < -eps * max(1.0, start_infeasibility):
         return Status.INFEASIBLE, iters, matrix, basis, basis_set
 
     # Pivot out any artificial variables still in basis before removing columns
